@@ -1,11 +1,12 @@
 (* driver for the extracted C11 reader models.  argv: <wkb max_depth|none> <cc_guard 0|1> [<wkt max_depth|none>]
-   one case per line:  B <hex of WKB bytes> | H <hex of the HEX text> | T <hex of the WKT text>
+   one case per line:  B <hex of WKB bytes> | H <hex of the HEX text> | T <hex of the WKT text>; lower-case b / h / t = the same reader
+   with the option fix-structure on (GEOSWKBReader_setFixStructure_r / GEOSWKTReader_setFixStructure_r)
    one result per line: ACC <structure> (ACC? = accepted unless the floating-point envelope of a non-tame arc throws) srid=<n> | <stats>   or   REJ <error> | <stats>   or   UB | <stats>   or  FUEL *)
 let max_depth = if Array.length Sys.argv > 1 && Sys.argv.(1) <> "none" then Some (z_of_int (int_of_string Sys.argv.(1))) else None
 let guard = Array.length Sys.argv > 2 && Sys.argv.(2) = "1"
-let cfg = { max_depth = max_depth; cc_guard = guard }
+let cfg = { max_depth = max_depth; cc_guard = guard; fix_rings = false }
 (* the WKT reader has its own limit (third argument; defaults to the first) *)
-let cfg_wkt = { max_depth = (if Array.length Sys.argv > 3 then (if Sys.argv.(3) <> "none" then Some (z_of_int (int_of_string Sys.argv.(3))) else None) else max_depth); cc_guard = guard }
+let cfg_wkt = { max_depth = (if Array.length Sys.argv > 3 then (if Sys.argv.(3) <> "none" then Some (z_of_int (int_of_string Sys.argv.(3))) else None) else max_depth); cc_guard = guard; fix_rings = false }
 
 let hexv c = match c with
   | '0'..'9' -> Char.code c - 48 | 'a'..'f' -> Char.code c - 87 | 'A'..'F' -> Char.code c - 55 | _ -> failwith "hex"
@@ -42,9 +43,9 @@ let show_err e = match e with
 let show_stats t =
   Printf.sprintf "pos=%d coords=%d slots=%d nodes=%d dmax=%d quad=%d" (zi t.pos) (zi t.coords) (zi t.slots) (zi t.nodes) (zi t.dmax) (zi t.quad)
 
-let run_wkb (bytes : int list) : string =
+let run_wkb ?(fx = false) (bytes : int list) : string =
   let input = zlist bytes in
-  match wkb_read cfg input with
+  match wkb_read { cfg with fix_rings = fx } input with
   | Ok ((g, _), s) -> Printf.sprintf "%s %s srid=%d | %s" (if g_risky g then "ACC?" else "ACC") (show_geom g) (zi (top_srid input)) (show_stats s.stt)
   | Err (EUB, t) -> "UB | " ^ show_stats t
   | Err (e, t) -> Printf.sprintf "REJ %s | %s" (show_err e) (show_stats t)
@@ -63,9 +64,9 @@ let numval (cs : char list) : z =
   z_of_int64_unsigned (Int64.bits_of_float f)
 let show_wstats t =
   Printf.sprintf "pos=%d toks=%d coords=%d elems=%d nodes=%d dmax=%d quad=%d" (zi t.wpos) (zi t.wtoks) (zi t.wcoords) (zi t.welems) (zi t.wnodes) (zi t.wdmax) (zi t.wquad)
-let run_wkt (bytes : int list) : string =
+let run_wkt ?(fx = false) (bytes : int list) : string =
   let input = List.map Char.chr bytes in
-  match wkt_read numval cfg_wkt input with
+  match wkt_read numval { cfg_wkt with fix_rings = fx } input with
   | WOk ((g, _), s) -> Printf.sprintf "%s %s srid=0 | %s" (if g_risky g then "ACC?" else "ACC") (show_geom g) (show_wstats s.wst)
   | WErr (EUB, t) -> "UB | " ^ show_wstats t
   | WErr (e, t) -> Printf.sprintf "REJ %s | %s" (show_err e) (show_wstats t)
@@ -77,16 +78,16 @@ let () =
     let out =
       try
         match String.index_opt line ' ' with
-        | None -> if line = "B" || line = "H" || line = "T" then
-                    (match line with "B" -> run_wkb [] | "H" -> run_wkb [] | _ -> run_wkt []) else "?"
+        | None -> if line = "B" || line = "H" || line = "T" || line = "b" || line = "h" || line = "t" then
+                    (match line with "B" | "H" | "b" | "h" -> run_wkb [] | _ -> run_wkt []) else "?"
         | Some i ->
           let mode = String.sub line 0 i and payload = String.sub line (i + 1) (String.length line - i - 1) in
           (match mode with
-           | "B" -> run_wkb (bytes_of_hex payload)
-           | "H" -> (match hex_decode (zlist (bytes_of_hex payload)) with
-                     | Some bs -> run_wkb (List.map zi bs)
+           | "B" | "b" -> run_wkb ~fx:(mode = "b") (bytes_of_hex payload)
+           | "H" | "h" -> (match hex_decode (zlist (bytes_of_hex payload)) with
+                     | Some bs -> run_wkb ~fx:(mode = "h") (List.map zi bs)
                      | None -> "REJ hex | pos=0 coords=0 slots=0 nodes=0 dmax=0 quad=0")
-           | "T" -> run_wkt (bytes_of_hex payload)
+           | "T" | "t" -> run_wkt ~fx:(mode = "t") (bytes_of_hex payload)
            | "N" -> if is_number (List.map Char.chr (bytes_of_hex payload)) then "NUM" else "WORD"
            | _ -> "?")
       with Stack_overflow -> "MODEL-STACK-OVERFLOW" | Failure m -> "MODEL-FAIL " ^ m
